@@ -211,6 +211,39 @@ def run(rep, info, model, tier, seed):
             hs.append(sc)
     fam.run_family(rep, model, "C15:honest-selector", hs, oracle, project=lambda t: t,
                    rule="the same parameter grid, %d histories each, with the steps read as arrival times and a simulated selector that honours the timeout it is given (returns True when the next arrival is there, False after exactly `timeout` seconds, never for a negative timeout or None): the wake-ups are the loop's own; they are time-stamped, judged against the bounds of the statement and replayed through the model" % per2)
+    # the loop's own waiting discipline against the selector model of the theorems (Model.Selector.wakes): with handlers that
+    # take no time, the instants at which selector.wait returned are those of a loop that asks for `poll` every time
+    if model is not None:
+        sub = hs[::3]
+        res = fam.run_impl_many([fam.strip_meta(sc) for sc in sub])
+        reqs, got = [], []
+        for sc, (it, extra) in zip(sub, res):
+            t, wk = 0, []
+            for st in (extra or {}).get("wake_script") or ():
+                t += st[1]
+                wk.append(t)
+            a, arr = 0, []
+            for st in sc["steps"]:
+                a += st[1] if st[0] == "timeout" else 0
+                if st[0] != "timeout":
+                    arr.append(a + st[1])
+                    a += st[1]
+            got.append(wk)
+            reqs.append([42, len(wk), sc["cfg"]["poll"], 0, arr])
+        mres = model.run(reqs)
+        rep.watch_extraction(model, reqs[:30])
+        dis = 0
+        first = None
+        for sc, wk, m in zip(sub, got, mres):
+            rep.add_case(("wakes", fam.fingerprint(fam.strip_meta(sc))))
+            mw = [x if not isinstance(x, list) else -x[0] for x in m]
+            if mw != wk:
+                dis += 1
+                first = first or (sc["cfg"], wk[:12], mw[:12])
+        if dis and not rep.violations:
+            rep.broken("correspondence C15:selector-discipline: on %d of %d histories the instants at which the loop woke up under the honest selector differ from Model.Selector.wakes with timeout = poll; first (cfg, implementation, model): %r" % (dis, len(sub), first))
+        rep.families.append(dict(name="C15:selector-discipline", cases=len(sub), disagreements=dis,
+                                 rule="a third of the honest-selector histories: the wake-up instants recorded by the simulated selector against Model.Selector.wakes (the selector of the theorems C15_*_under_honest_selector) for the same arrival times and timeout = poll"))
     if not proof_ok and not rep.violations:
         rep.broken("proof obligation props/C15.v no longer checks: %s" % (rep.coq_failure,))
 
